@@ -104,9 +104,11 @@ Definition run_prune_attr (rc : agraph) (raw : list mapping) : tok :=
   let A := rule_auts g in
   L [ run_prune g raw; tbool (wfb g); tbool (dom_ok g raw); tbool (rep_ok g raw);
       (* the symmetries handed to the de-duplicator, as a set of maps (only when the call happens and they are few) *)
-      t_maps (if (1 <? length raw)%nat then (if (length A <=? 60)%nat then A else []) else []);
-      (* every raw match has the labelled image (model/C11_Image.v) of a kept match *)
-      tbool (images_ok g raw) ].
+      t_maps (if (1 <? length raw)%nat then (if (length A <=? 60)%nat then A else []) else []) ].
+(** ... plus: every raw match has the labelled image (model/C11_Image.v) of a kept match (quadratic in the number of
+    matches: the harness asks for it below a cost bound) *)
+Definition run_prune_attr_img (rc : agraph) (raw : list mapping) : tok :=
+  L [ run_prune_attr rc raw; tbool (images_ok (to_rule_graph [K_atom_map] rc) raw) ].
 
 (** deduplicate_matches_by_automorphisms(ms, graph_automorphisms(P, ignore_node_attrs=skip)): kept indices, group order *)
 Definition run_dedup_skip (skip : list N) (p : agraph) (ms : list mapping) : tok :=
